@@ -539,3 +539,47 @@ func FuzzSelect(f *testing.F) {
 		prop.One(t, Case{Sel: clean, Data: val.FromNode(n), Text: text})
 	})
 }
+
+// TestSegmentTriples: EVERY sequence of one, two and three segments from a pool that has each kind in its plain and
+// optional form, hitting and missing (a field that is there / is not, an index inside / outside, a slice, an
+// iterator), on a panel of subjects of every kind. What a segment does when the segment before it produced no value,
+// failed or produced another kind is decided here position by position, against the reference resolver and the split
+// clause - the generator follows the data and seldom steps off it twice in a row.
+func TestSegmentTriples(t *testing.T) {
+	pool := []sel.Seg{
+		{Kind: "field", Name: "a"}, {Kind: "field", Name: "a", Opt: true}, {Kind: "field", Name: "zz"}, {Kind: "field", Name: "zz", Opt: true},
+		{Kind: "qfield", Name: "with space", Opt: true},
+		{Kind: "index", Idx: 0}, {Kind: "index", Idx: 0, Opt: true}, {Kind: "index", Idx: 9}, {Kind: "index", Idx: 9, Opt: true}, {Kind: "index", Idx: -1, Opt: true},
+		{Kind: "slice", From: ip(0), To: ip(2)}, {Kind: "slice", From: ip(0), To: ip(2), Opt: true}, {Kind: "slice", From: ip(1)}, {Kind: "slice", To: ip(-1), Opt: true},
+		{Kind: "iter"}, {Kind: "iter", Opt: true},
+	}
+	subjects := []val.V{
+		val.Map(val.E("b", val.Str("hello"))),
+		val.Map(val.E("a", val.Str("hello")), val.E("b", val.Int(1))),
+		val.Map(val.E("a", val.List(val.Int(1), val.Int(2), val.Int(3)))),
+		val.Map(val.E("a", val.Map(val.E("a", val.Bytes([]byte{1, 2, 3}))))),
+		val.Map(val.E("a", val.Null())),
+		val.List(val.Str("xy"), val.List(val.Int(1)), val.Map(val.E("a", val.Int(7)))),
+		val.List(),
+		val.Str("héllo"), val.Bytes([]byte{9, 8, 7}), val.Null(), val.Int(5),
+	}
+	n := 0
+	for _, d := range subjects {
+		for i := range pool {
+			prop.One(t, Case{Sel: sel.Sel{pool[i]}, Data: d})
+			n++
+			for j := range pool {
+				prop.One(t, Case{Sel: sel.Sel{pool[i], pool[j]}, Data: d})
+				n++
+				if !h.Thorough() && (i+j)%2 == 1 {
+					continue // quick: half of the triples
+				}
+				for k := range pool {
+					prop.One(t, Case{Sel: sel.Sel{pool[i], pool[j], pool[k]}, Data: d})
+					n++
+				}
+			}
+		}
+	}
+	P.SetExtra("segment_triple_cases", n)
+}
